@@ -157,6 +157,7 @@ class Scaling(Interp):
         self.notes: List[str] = []
         self.definite: List[str] = []
         self.atom_sums = False
+        self.allow_floor = False
         self.stores: List[Tuple[ast.stmt, str, SV, SV]] = []  # (stmt, target, index value, stored value)
         self.compares: List[Tuple[ast.Compare, SV, SV]] = []
         self.calls: List[Tuple[ast.Call, str, List[SV]]] = []
@@ -486,7 +487,9 @@ class Scaling(Interp):
             if target.kind == "det" and all(o.kind in ("det", "none") for o in others):
                 mn = kw.get("min")
                 if mn is not None and (self.is_eps(mn) or mn.kind == "none"):
-                    return target  # clamp(v, min=eps): regulariser
+                    if not self.allow_floor and not target.m.only_coef():
+                        self.definite.append(f"`{unparse(node)[:80]}` puts a floor under a configured/derived power: for weak signals the law no longer holds")
+                    return target  # clamp(v, min=eps): measurement guard
                 if mn is None and not rest:
                     return target
             if target.kind in ("sig", "out"):
@@ -553,6 +556,7 @@ class Scaling(Interp):
             env.setdefault(p, NONE_V)
         sub = Scaling(callee, self.repo, cls=self.cls if bound else callee.cls, config=self.config, attr_values=self.attr_values, method_models=self.method_models, depth=self.depth + 1, eps_max=self.eps_max)
         sub.atom_sums = self.atom_sums
+        sub.allow_floor = self.allow_floor
         sub.run(env)
         self.notes += sub.notes
         self.definite += sub.definite
